@@ -125,9 +125,16 @@ impl ParsedDate {
             ));
         }
 
-        if !(1..=31).contains(&day) {
+        let leap_year = (year % 4 == 0 && year % 100 != 0) || year % 400 == 0;
+        let days_in_month = match month {
+            4 | 6 | 9 | 11 => 30,
+            2 if leap_year => 29,
+            2 => 28,
+            _ => 31,
+        };
+        if !(1..=days_in_month).contains(&day) {
             return Err(format!(
-                "Invalid day {day} in date: '{date_str}'. Day must be 1-31"
+                "Invalid day {day} in date: '{date_str}'. Day must be 1-{days_in_month}"
             ));
         }
 
